@@ -465,6 +465,14 @@ func presenceOfKey(v ssa.Value, depth int, seen map[ssa.Value]bool) string {
 				ks = append(ks, k)
 			}
 		}
+		// a || b || c lowered to a phi: the constant-true edges stand for the tests made in the predecessor blocks
+		for _, dj := range disjuncts(x, 0) {
+			if dj != ssa.Value(x) {
+				if k := presenceOfKey(dj, depth+1, seen); k != "" {
+					ks = append(ks, k)
+				}
+			}
+		}
 		if len(ks) > 0 {
 			sort.Strings(ks)
 			return strings.Join(uniq(ks), "/")
